@@ -44,7 +44,7 @@ def p_jbos(a: str, b: str) -> bool:
     want = ['prog', a + b, 'x'] if (a + b) != '' else None
     if want is None:
         return True
-    return R(rmsvcrt.argv(line) == want)
+    return R(rmsvcrt.argv(line) == want and wshell.split(line) == want)
 
 
 class _Win:
@@ -236,3 +236,44 @@ def d_solution(e01: bool, e02: bool, e12: bool, ext0: bool, ext2: bool, present1
             continue
         n_edges += len(want[i])
     return R(ok and len(deps_seen) == n_edges)
+
+
+def m_default_project(n_explicit: int, n_fallback: int, e0: int, e1: int) -> bool:
+    """the msbuild post-rules hook that moves the default project to the front: whatever the
+    default()/fallback sets are, every project is still in the solution afterwards (each with its
+    own GUID) and the default one is listed first
+    pre: 0 <= n_explicit <= 2 and 0 <= n_fallback <= 2 and 0 <= e0 < 3 and 0 <= e1 < 3 and e0 != e1
+    post: _
+    """
+    from bfg9000.backends.msbuild.syntax import NoopProject
+    from bfg9000.builtins import default as bdefault
+    store = {}
+    old = msol.uuid.uuid4
+    _with_store(store, [0])
+    try:
+        sol = msol.Solution(msol.UuidMap('mem'))
+        outs = [_File(), _File(), _File()]
+        for i, o in enumerate(outs):
+            o.creator = _Edge([o])
+            o.all = [o]
+            sol[o] = NoopProject(_Env(), name=NAMES[i])
+        d = bdefault.DefaultOutputs()
+        order = [e0, e1]
+        for k in range(n_explicit):
+            d.add(outs[order[k]], explicit=True)
+        for k in range(n_fallback):
+            d.add(outs[order[-1 - k]])
+
+        class _B(dict):
+            pass
+        bdefault.msbuild_default(_B(defaults=d), sol, _Env())
+        names = [p.name for p in sol]
+        uu = [p.uuid_str for p in sol]
+    finally:
+        _restore(old)
+    ok = sorted(names) == sorted(NAMES) and len(set(uu)) == 3
+    if n_explicit > 0:
+        ok = ok and names[0] == NAMES[order[0]]
+    elif n_fallback > 0:
+        ok = ok and names[0] == NAMES[order[-1 - (n_fallback - 1)]]
+    return R(ok)
